@@ -295,4 +295,5 @@ pub fn run_c10(out: &mut Out, tier: &str, seed: u64) {
             other => out.hit("obj.pwhash.from_string.rejects-valid-string", format!("class {}", other.class()), json!({"string":s})),
         }
     }
+    crate::objapi::pwhash_lengths(out, &mut rng);
 }
